@@ -533,7 +533,7 @@ func c10Finish(c *engine.Ctx, cov map[string]interface{}) string {
 func init() {
 	register(&engine.Check{
 		ID: "C10", Level: "model_checking",
-		Rule: "every valid JSON document of ≤n tokens over {6 punctuators, 10 strings (all escape forms, backslash runs before the quote), 11 numbers, 3 literals} judged by encoding/json.Valid × whitespace at every token boundary (one at a time and all at once, two whitespace kinds); every token sequence ≤k without validity pruning (with/without separating spaces); every byte string ≤k atoms over the JSON byte alphabet; edit balls around 31 seeds. Oracles: reconstruction == json.Compact, shadow container stack vs End units and State(), four named error classes located by a strict reference tokenizer + grammar walk. states/transitions = abstract parser states (stack depth≤4, top state, needComma) and (state,unit) transitions reached",
+		Rule:        "every valid JSON document of ≤n tokens over {6 punctuators, 10 strings (all escape forms, backslash runs before the quote), 11 numbers, 3 literals} judged by encoding/json.Valid × whitespace at every token boundary (one at a time and all at once, two whitespace kinds); every token sequence ≤k without validity pruning (with/without separating spaces); every byte string ≤k atoms over the JSON byte alphabet; edit balls around 31 seeds. Oracles: reconstruction == json.Compact, shadow container stack vs End units and State(), four named error classes located by a strict reference tokenizer + grammar walk. states/transitions = abstract parser states (stack depth≤4, top state, needComma) and (state,unit) transitions reached",
 		Assumptions: []string{"encoding/json is the judge of validity and of the compact form", "trailing commas and other deviations the property does not name are not compared"},
 		Setup:       c10Setup, Work: c10Work, Finish: c10Finish,
 	})
